@@ -4,7 +4,7 @@ use hashbrown::HashSet;
 use nom::{
     Finish, IResult, Parser,
     branch::alt,
-    bytes::complete::{is_not, tag, take_till, take_until, take_while},
+    bytes::complete::{is_not, tag, take, take_till, take_until, take_while},
     character::complete::{char, multispace1},
     combinator::{eof, fail, map, opt, value, verify},
     error::context,
@@ -673,15 +673,17 @@ fn terminal(mut input: Span) -> IResult<Span, String> {
         input = after;
 
         // an optional sequence of escaped characters
-        while let Some(after) = input.strip_prefix('\\') {
-            input = after.into();
+        // (consume through nom so that the span keeps tracking line and column)
+        while input.starts_with('\\') {
+            let (after, _) = take(1usize)(input)?;
+            input = after;
             if input.starts_with([
                 '(', ')', '[', ']', '<', '>', '|', ';', '"', '{', '}', '\\', '.',
             ]) {
-                let mut chars = input.chars();
-                term.push(chars.next().unwrap());
+                let (after, escaped) = take(1usize)(input)?;
+                term.push_str(&escaped);
                 consumed += 1;
-                input = chars.as_str().into();
+                input = after;
             } else {
                 // escaped non-special character
                 return fail().parse(input);
